@@ -21,9 +21,13 @@ class C06(Prop):
             "reference rate in [-0.05, 0.24], markup in {0, .005, .01, .03}, interval from 1 s to 40 years cut into "
             "0-6 sub-intervals by accruing calls, query-only calls, repeated calls at the same instant, calls at an "
             "earlier time, and rebalances that trade nothing; each case is also run with the single direct accrual "
-            "(split invariance). Non-trivial = at least one cut and (negative cash or rate < markup or a query "
-            "interleaved or margin held); distinct = distinct cases")
-    nontrivial_tags = {"loan", "floor", "query", "margin-held", "rebalance-no-trade", "cuts>=2"}
+            "(split invariance). Cash balances include exactly 0; in 12% of the cases the balance is driven to exactly 0 "
+            "by a fee-free purchase made right after an accrual, stays there over accruals / queries / a same-instant "
+            "pair / an earlier-time call, and comes back through a sale made right after another accrual (so the balance "
+            "is constant between accruals, as with Broker.rebalance): no interest for the zero period, the zero-cash "
+            "accrual still moves the interest clock. Non-trivial = at least one cut and (negative cash or rate < markup "
+            "or a query interleaved or margin held), or a zero-cash period; distinct = distinct cases")
+    nontrivial_tags = {"loan", "floor", "query", "margin-held", "rebalance-no-trade", "cuts>=2", "zero-cash-period"}
     assumptions = [
         "the power function is a leaf: Real.rpow in the theorems, C pow (via Lean Float) in the executed model, "
         "Python float ** in the implementation; compared at 1e-9 relative",
@@ -32,7 +36,7 @@ class C06(Prop):
     shrink_key = "cuts"
 
     def gen(self, rng, tier):
-        cash = rng.choice(["100000", "1234.5", "-5000", "-250000.25", "1", "777777.75", "-1"])
+        cash = rng.choice(["100000", "1234.5", "-5000", "-250000.25", "1", "777777.75", "-1", "0", "0"])
         rate = F(round(rng.uniform(-0.05, 0.24), rng.choice([2, 3, 6])))
         markup = Fraction(rng.choice(["0", "0.005", "0.01", "0.03", "0.1"]))
         if 1 + rate - markup <= Fraction(1, 100):
@@ -46,7 +50,7 @@ class C06(Prop):
             kind = rng.choice(["accrue", "accrue", "query", "same", "earlier", "rebal"])
             cuts.append([kind, p])
         return dict(cash=cash, rate=fr(rate), markup=fr(markup), length=length, cuts=cuts,
-                    margin_held=rng.random() < 0.3)
+                    margin_held=rng.random() < 0.3, zero_trip=rng.random() < 0.12)
 
     def build(self, case, direct: bool):
         t0 = bs.T0
@@ -79,7 +83,63 @@ class C06(Prop):
         return dict(contracts=[dict(key="FUT", kind="user", mult="10", cashReq="0", mr="1/4")],
                     fees=["0", "0", case["markup"]], deposit=case["cash"], ops=ops)
 
+    def run_zero_trip(self, case):
+        """The cash balance is driven to *exactly* zero by a fee-free purchase, stays there over an accrual (or a
+        query, or a same-instant pair), comes back through a sale, and is accrued again: no interest may be paid
+        for the time the balance was zero, the zero-cash accrual must still move the interest clock (an earlier
+        time is rejected afterwards)."""
+        t0 = bs.T0
+        n = max(1, len(case["cuts"]))
+        seg = max(SEC, case["length"] // (n + 3))
+        ops = [["q", "RATE", t0, case["rate"], case["rate"]], ["q", "SPOT", t0, "100", "100"],
+               ["accrue", t0, 1], ["tradeq", "SPOT", "200", t0]]
+        t = t0
+        for kind, _ in (case["cuts"] or [["accrue", 0]]):
+            t += seg
+            if kind == "query":
+                ops.append(["accrue", t, 0])
+            elif kind == "same":
+                ops += [["accrue", t, 1], ["accrue", t, 1]]
+            elif kind == "earlier":
+                ops += [["accrue", t, 1], ["accrue", t - seg // 2 - 1, 1]]
+            elif kind == "rebal":
+                ops.append(["rebal", t, 0, 1, 1, "0", {"SPOT": "200"}])
+            else:
+                ops.append(["accrue", t, 1])
+        t_zero_end = t
+        # as `Broker.rebalance` does: accrue first (on the zero balance), then trade
+        ops += [["accrue", t, 1], ["tradeq", "SPOT", "-100", t], ["accrue", t + seg, 1]]
+        main = dict(contracts=[dict(key="SPOT", kind="ETF")], fees=["0", "0", case["markup"]], deposit="20000", ops=ops)
+        r, s = bs.run_case(main, {"accrue", "rebal", "tradeq", "pos"})
+        r.tags.add("zero-cash-period")
+        rate, markup = float(Fraction(case["rate"])), float(Fraction(case["markup"]))
+        accr = [o for o in s.obs if o["op"][0] == "accrue"]
+        last_t = None
+        for o in accr:
+            _, tt, flag = o["op"]
+            if o["status"] == "ok":
+                if last_t is not None and tt < last_t:
+                    r.fail("earlier-accepted", time=tt, last=last_t, theorem="earlier_time_rejected")
+                if last_t is not None and tt == last_t and flag and o["amount"] != 0:
+                    r.fail("same-instant", amount=float(o["amount"]), theorem="accrue_same_instant_zero")
+                if flag or last_t is None:
+                    last_t = tt
+        # the last accrual covers exactly one segment on a balance of 10000
+        final = accr[-1]
+        if final["status"] == "ok":
+            years = seg / YEAR_US
+            want = 10000.0 * ((1 + rate - markup) ** years - 1) if rate >= markup else 0.0
+            if abs(float(final["amount"]) - want) > 1e-9 * max(abs(want), 1.0):
+                r.fail("closed-form", reported=float(final["amount"]), expected=want, years=years,
+                       clause="no interest for the time the balance was zero", theorem="idle_growth / accrue_spec")
+        for o in accr[1:-1]:
+            if o["status"] == "ok" and o["amount"] != 0:
+                r.fail("closed-form", reported=float(o["amount"]), expected=0.0, clause="zero balance accrues nothing")
+        return r
+
     def run_impl(self, case):
+        if case.get("zero_trip"):
+            return self.run_zero_trip(case)
         main = self.build(case, direct=False)
         r, s = bs.run_case(main, {"accrue", "state", "rebal"})
         direct = self.build(case, direct=True)
